@@ -194,6 +194,30 @@ enum CellMark {
     Damaged,
 }
 
+/// Area of the terminal occupied by the cell placed at the given position, not
+/// counting the cell itself in the case of a character: the whole area under
+/// the image, columns behind the wide character.
+fn cell_extent(
+    cell: &Cell,
+    pos: Position,
+    pixels_per_cell: Size,
+) -> (std::ops::Range<usize>, std::ops::Range<usize>) {
+    match &cell.kind {
+        CellKind::Image(image) => {
+            let size = image.size_cells(pixels_per_cell);
+            (
+                pos.row..pos.row + size.height,
+                pos.col..pos.col + size.width,
+            )
+        }
+        CellKind::Char(character) => {
+            let width = character.width().unwrap_or(0);
+            (pos.row..pos.row + 1, pos.col + 1..pos.col + width)
+        }
+        CellKind::Glyph(_) => (pos.row..pos.row, pos.col..pos.col),
+    }
+}
+
 pub type TerminalSurface<'a> = SurfaceMutView<'a, Cell>;
 
 /// Terminal renderer
@@ -272,6 +296,7 @@ impl TerminalRenderer {
         // - Replace glyphs with images in the front buffer
         // - Erase changed images
         // - Record images that we need to render
+        let pixels_per_cell = self.size.pixels_per_cell();
         for ((pos, old), new) in self.back.iter().with_position().zip(self.front.iter_mut()) {
             // replace glyphs with images
             if let CellKind::Glyph(glyph) = &new.kind {
@@ -289,42 +314,26 @@ impl TerminalRenderer {
             // skip cells that have not changed, go over ignored items too as they
             // might remove old images.
             if old == new && self.marks.get(pos) != Some(&CellMark::Damaged) {
-                // cell under the image needs to be marked as ignored
-                if let CellKind::Image(image) = &new.kind {
-                    let size = image.size_cells(self.size.pixels_per_cell());
-                    self.marks
-                        .view_mut(
-                            pos.row..pos.row + size.height,
-                            pos.col..pos.col + size.width,
-                        )
-                        .fill(CellMark::Ignored);
-                }
+                // cells under the image and behind the wide character need to
+                // be marked as ignored
+                let (rows, cols) = cell_extent(new, pos, pixels_per_cell);
+                self.marks.view_mut(rows, cols).fill(CellMark::Ignored);
                 continue;
             }
 
-            // erase and damage area under old image
+            // erase old image and damage area that was occupied by the old cell
             if let CellKind::Image(image) = &old.kind {
                 term.execute(TerminalCommand::ImageErase(image.clone(), Some(pos)))?;
-                let size = image.size_cells(self.size.pixels_per_cell());
-                self.marks
-                    .view_mut(
-                        pos.row..pos.row + size.height,
-                        pos.col..pos.col + size.width,
-                    )
-                    .fill(CellMark::Damaged);
             }
+            let (rows, cols) = cell_extent(old, pos, pixels_per_cell);
+            self.marks.view_mut(rows, cols).fill(CellMark::Damaged);
 
-            // record image to be rendered, and mark area under the image to be ignored
+            // record image to be rendered, and mark area occupied by the new cell to be ignored
             if let CellKind::Image(image) = &new.kind {
                 self.images.push((pos, new.face, image.clone()));
-                let size = image.size_cells(self.size.pixels_per_cell());
-                self.marks
-                    .view_mut(
-                        pos.row..pos.row + size.height,
-                        pos.col..pos.col + size.width,
-                    )
-                    .fill(CellMark::Ignored);
             }
+            let (rows, cols) = cell_extent(new, pos, pixels_per_cell);
+            self.marks.view_mut(rows, cols).fill(CellMark::Ignored);
         }
 
         // Second pass
